@@ -138,6 +138,10 @@ TStep ==
        [] tr.kind = "cuts" ->
           \A p \in 1..Len(tr.obs) : LET o == tr.obs[p] IN
             /\ ChkT(tr, p, "reader did not terminate on the prefix of " \o ToString(o.n) \o " bytes", o.k # "Hang")
+            \* (update mode: numpy extends a file shorter than the header before the
+            \* reader raises - a side effect the property does not speak about; steps
+            \* exposed from a file the reader itself extended are fabricated)
+            /\ ChkT(tr, p, "the reader extended the " \o ToString(o.n) \o "-byte prefix and exposed steps from it", ~(o.grew /\ o.k = "Steps"))
             /\ (o.k = "Steps" =>
                IF HeaderlessFirstStep(c, o.n) /\ o.steps > CompleteSteps(c, o.n)
                THEN TrKnown(tr, "C14_K1_headerless_first_step")
